@@ -45,6 +45,9 @@ type Rec struct {
 	W string `sod:"lower"`
 	// O is omitted from the JSON of an object when zero: a decoder that reuses its target sees the previous object's value
 	O int `json:",omitempty" sod:"index"`
+	// R is an optional string: struct tags on pointer fields are not read by the library, a case constraint can only be
+	// put on it by a custom schema (custom schema 7); nil everywhere else
+	R *string
 	// payload (opaque to the specification)
 	L []int
 	M map[string][]*Sub
@@ -72,6 +75,7 @@ type RecPlain struct {
 	V int
 	W string `sod:"lower"`
 	O int    `json:",omitempty"`
+	R *string
 	L []int
 	M map[string][]*Sub
 	Q *int
@@ -180,6 +184,10 @@ func buildRec(v Vals, pl int) *Rec {
 	r.V = uniV[v["V"]]
 	r.W = caseLower.value(v["W"])
 	r.O = uniO[v["O"]]
+	if v["R"] != zeroCode("R") {
+		x := caseUpper.value(v["R"])
+		r.R = &x
+	}
 	setPayload(r, pl)
 	return r
 }
@@ -208,6 +216,10 @@ func encodeRec(r *Rec) Vals {
 	v["V"] = idxInt(uniV, r.V)
 	v["W"] = caseLower.encode(r.W)
 	v["O"] = idxInt(uniO, r.O)
+	v["R"] = zeroCode("R")
+	if r.R != nil {
+		v["R"] = caseUpper.encode(*r.R)
+	}
 	return v
 }
 
